@@ -156,6 +156,7 @@ def _run_unit_once(unit, rlimit, vacuity, degrade):
         for d in errors:
             spans = d.get('spans', [])
             prim = [s_ for s_ in spans if s_.get('is_primary')] or spans
+            prim = [s_ for s_ in prim if os.path.basename(s_.get('file_name', gen)) == os.path.basename(gen)]
             fn = _fn_of_line(info, prim[0]['line_start']) if prim else None
             if fn is None:
                 cand = None
@@ -174,11 +175,16 @@ def _run_unit_once(unit, rlimit, vacuity, degrade):
         line_end = prim[0]['line_end'] if prim else 0
         # the function is where any span lies
         fn = None
-        for s in spans:
+        for s in prim + [x for x in spans if x not in prim]:
+            if os.path.basename(s.get('file_name', gen)) != os.path.basename(gen):
+                continue
             fn = fn or _fn_of_line(info, s['line_start'])
+        # labels `[Cxx.clause]` are read from the PRIMARY span only (the failed clause of this function); the secondary span of a
+        # failed precondition is the callee's `requires`, whose neighbouring labels belong to the callee
         labels = []
-        for s in spans:
-            labels += _labels_near(gen_lines, s['line_start'], s['line_end'])
+        for s in prim:
+            if os.path.basename(s.get('file_name', gen)) == os.path.basename(gen):
+                labels += _labels_near(gen_lines, s['line_start'], s['line_end'])
         entry = {'message': msg, 'gen_line': line, 'function': (fn['file'] + ' :: ' + fn['path']) if fn else 'template(line %d)' % line,
                  'src_lines': fn['src_lines'] if fn else None, 'labels': sorted(set(labels)),
                  'clause': ' '.join(x.strip() for x in gen_lines[line - 1:line_end][:6])[:400] if line else '',
